@@ -225,23 +225,27 @@ def vi_versions_agree(sx, shape, gamma, K):
         sx.prove(list(r1.state_value.state_list) == list(r2.state_value.state_list), 'same-state-list')
 
 
-def vi_undiscounted(sx, shape, version, K, extra_dead=False):
-    """gamma = 1, non-positive rewards, goal-reaching skeletons (+ optionally a state that cannot reach a goal)"""
+def vi_undiscounted(sx, shape, version, K, extra_dead=False, undef='sym', dead_prob='1/2'):
+    """gamma = 1, non-positive rewards, goal-reaching skeletons (+ optionally a state that cannot reach a goal; the placeholder
+    reported there is symbolic or infinite; the state may be listed in the initial distribution with probability exactly 0)"""
     sh = PROPER[shape]
     if extra_dead:
         # add a state S (self-loop, negative reward possible) that can never reach the absorbing state
         S = sh.S
         rows = dict(sh.rows)
         rows[(S, 0)] = {S: F(1)}
-        s0 = {k: v / 2 for k, v in sh.s0.items()}
-        s0[S] = F(1, 2)
+        dp = F(dead_prob)
+        s0 = {k: v * (1 - dp) for k, v in sh.s0.items()}
+        s0[S] = dp
         sh = Shape(S + 1, sh.A, sh.avail + [[0]], rows, absorb=sh.absorb, s0=s0, gamma=F(1), name=sh.name + '+dead')
     rew = sym_rewards(sx, sh, -1, 0)
     eps = sx.real('eps', 0, 1, lo_open=True)
-    undef = sx.real('undefined_value', -5, 5)
+    dummy = sx.real('undefined_value', -5, 5)
+    undef = dummy if undef == 'sym' else float(undef)
     from msdm.algorithms.valueiteration import ValueIteration
     with facade(sx), shadow(sx, ['msdm.algorithms.valueiteration']):
-        mdp = build_mdp(sx, sh, rew)
+        # (a state listed with probability 0 and not reachable otherwise belongs to the problem only through an explicit state list)
+        mdp = build_mdp(sx, sh, rew, explicit_lists=extra_dead and F(dead_prob) == 0)
         with sx.must_not_raise('vi-plan'):
             res = ValueIteration(max_iterations=K, max_residual=eps, undefined_value=undef, _version=version).plan_on(mdp)
         absorbing = implicit_absorbing(sh, rew)
@@ -260,8 +264,56 @@ def vi_undiscounted(sx, shape, version, K, extra_dead=False):
                 # iterates decrease monotonically from 0 towards V*: never below it
                 sx.prove_le(Vs[s], v, f'value-not-below-optimal[{s}]', tol=F(1, 10**8))
                 sx.prove_le(v, 0, f'value-non-positive[{s}]')
-        sx.prove_eq(res.initial_value, ssum(sx.const(p) * res.state_value[s] for s, p in sh.s0.items()), 'initial-value')
+        # expectation of the reported values over the initial distribution (states of probability 0 do not count, whatever they hold)
+        sx.prove_eq(res.initial_value, ssum(sx.const(p) * res.state_value[s] for s, p in sh.s0.items() if p > 0), 'initial-value')
         sx.observe('V', [res.state_value[s] for s in range(sh.S)])
+
+
+def pi_batch(sx, order):
+    """PolicyIteration.batch_plan_on on TWO undiscounted problems of equal shape whose never-terminating states differ: every
+    result is the one plan_on gives for that problem alone (values, placeholder rows, initial value, policy)"""
+    H = F(1, 2)
+    shA = Shape(3, 2, [[0, 1], [0, 1], [0]], {(0, 0): {1: 1}, (0, 1): {0: H, 2: H}, (1, 0): {2: 1}, (1, 1): {0: H, 2: H}, (2, 0): {2: 1}},
+                absorb=[2], gamma=F(1), s0={0: H, 1: H}, name='all-reach-goal')
+    shB = Shape(3, 2, [[0, 1], [0, 1], [0]], {(0, 0): {1: 1}, (0, 1): {0: H, 2: H}, (1, 0): {1: 1}, (1, 1): {1: 1}, (2, 0): {2: 1}},
+                absorb=[2], gamma=F(1), s0={0: H, 1: H}, name='state-1-never-terminates')
+    rewA = sym_rewards(sx, shA, -1, 0, tag='ra')
+    rewB = {(s_, a_, ns_): sx.const(F(-(1 + (s_ + a_) % 3), 4)) for s_ in range(3) for a_ in shB.avail[s_] for ns_ in shB.rows[(s_, a_)]}
+    from msdm.algorithms.policyiteration import PolicyIteration
+    K = 2 ** 3 + 2
+    with facade(sx), fork_isclose(merge=MERGE_PI):
+        mA, mB = build_mdp(sx, shA, rewA), build_mdp(sx, shB, rewB)
+        batch = [(shA, rewA, mA), (shB, rewB, mB)]
+        if order == 'BA':
+            batch.reverse()
+        with sx.must_not_raise('pi-batch-plan'):
+            results = PolicyIteration(max_iterations=K).batch_plan_on([m for _, _, m in batch])
+        sx.prove(len(results) == 2, 'one-result-per-problem')
+        isomax = F(1, 10**8) + F(1, 10**5) * 8 + F(1, 10**7)
+        for k, ((sh, rew, _), res) in enumerate(zip(batch, results)):
+            _pi_common(_Tag(sx, f'batch[{k}:{sh.name}]:'), sh, rew, res, sh.gamma, False, isomax)
+
+
+class _Tag:
+    """prefixes obligation labels of a delegated check"""
+    def __init__(self, sx, tag):
+        self._sx, self._tag = sx, tag
+
+    def __getattr__(self, k):
+        v = getattr(self._sx, k)
+        if k in ('prove', 'prove_eq', 'prove_le'):
+            pos = 1 if k == 'prove' else 2
+            tag = self._tag
+
+            def f(*a, **kw):
+                a = list(a)
+                if len(a) > pos:
+                    a[pos] = tag + a[pos]
+                elif 'label' in kw:
+                    kw['label'] = tag + kw['label']
+                return v(*a, **kw)
+            return f
+        return v
 
 
 def vi_exact_when_rewards_zero_tail(sx, shape, version):
@@ -521,6 +573,8 @@ def jobs(tier):
                 yield ('pi_discounted', dict(shape=i, gamma=gs, direct=(i in (0, 1, 3)) or not quick), dict(o, cost=5))
         if not (quick and i in dense):
             yield ('vi_versions_agree', dict(shape=i, gamma='1/2', K=3 if quick else 5), o)
+    for order in ['AB', 'BA']:
+        yield ('pi_batch', dict(order=order), o)
     for pl in ['vi-vectorized', 'vi-dict', 'pi']:
         for gs in (['1/2'] if quick else ['1/2', '9/10']):
             yield ('sticky_state', dict(planner=pl, gamma=gs), o)
@@ -538,4 +592,8 @@ def jobs(tier):
             K = 4 if quick else 8
             yield ('vi_undiscounted', dict(shape=i, version=ver, K=K), o)
             yield ('vi_undiscounted', dict(shape=i, version=ver, K=K, extra_dead=True), o)
+            if i == 0 or not quick:
+                for un in ['-inf', 'inf']:
+                    for dp in ['1/2', '0']:
+                        yield ('vi_undiscounted', dict(shape=i, version=ver, K=K, extra_dead=True, undef=un, dead_prob=dp), o)
         yield ('pi_undiscounted', dict(shape=i, direct=(i == 0) or not quick), o)
